@@ -28,6 +28,7 @@ POOLS = {
     "quick": [
         dict(nv=2, maxl=2, maxar=3, classes=("D", "U"), link_ft_classes=("O",)),
         dict(nv=3, maxl=1, maxar=2, classes=("D", "O"), nu=1, membership=True, raw=False),
+        dict(nv=3, maxl=1, maxar=2, classes=("D", "U"), bad=False, twin=True),     # last vertex: same uid as the first
     ],
     "thorough": [
         dict(nv=2, maxl=2, maxar=3, classes=("D", "U"), link_ft_classes=("O",)),
@@ -111,7 +112,7 @@ class System:
     def initial(self):
         if isinstance(self.alpha, Pumped):
             return self.alpha.initial()
-        return SWorld(self.alpha.nv, self.alpha.nu)
+        return SWorld(self.alpha.nv, self.alpha.nu, twin=getattr(self.alpha, "twin", False))
 
     def ops(self, w):
         return self.alpha.ops(w)
@@ -166,7 +167,7 @@ def replay(rec, verbose=False):
         w = alpha.initial()
     else:
         alpha = Alphabet(**rec["pool"])
-        w = SWorld(alpha.nv, alpha.nu)
+        w = SWorld(alpha.nv, alpha.nu, twin=getattr(alpha, "twin", False))
     hist = [tuple(op) for op in rec["history"]]
     for op in hist[:-1]:
         apply_op(w, op)
